@@ -554,6 +554,11 @@ func newSSAStyleFromString(content string, format map[int]string) (s *ssaStyle, 
 			return
 		}
 
+		// An empty cell means the style doesn't have this attribute
+		if len(item) == 0 {
+			continue
+		}
+
 		// Switch on attribute name
 		switch attr {
 		// Bool
